@@ -83,15 +83,6 @@ Definition span (c : caption) : Q * Q := (c_start c, c_end c).
 
 Inductive wkind := WSrt | WDfxp | WMerged (* legacy, single-position *) | WVtt | WMdvd.
 
-(* the spans the output must show, in order; groups = number of layout groups per caption
-   (WebVTT only) *)
-Definition expected_spans (k : wkind) (caps : list caption) (groups : list nat) : list (Q * Q) :=
-  match k with
-  | WSrt | WMerged => map (fun r => span (fst r)) (runs caps)
-  | WDfxp | WMdvd => map span caps
-  | WVtt => concat (map (fun cg => repeat (span (fst cg)) (snd cg)) (combine caps groups))
-  end.
-
 Definition ok_token (k : wkind) (t : Q) (tok : str) : bool :=
   match k with
   | WSrt => ok_hms 44 t tok
@@ -100,15 +91,47 @@ Definition ok_token (k : wkind) (t : Q) (tok : str) : bool :=
   | WMdvd => ok_frames t tok
   end.
 
-Fixpoint ok_pairs (k : wkind) (exp : list (Q * Q)) (obs : list (str * str)) : bool :=
-  match exp, obs with
+(* one written cue conveys a caption: both tokens denote its start and end *)
+Definition tok_ok (k : wkind) (c : caption) (o : str * str) : bool :=
+  ok_token k (c_start c) (fst o) && ok_token k (c_end c) (snd o).
+
+(* exactly one cue per caption, in order (DFXP, MicroDVD) *)
+Fixpoint ok_each (k : wkind) (caps : list caption) (obs : list (str * str)) : bool :=
+  match caps, obs with
   | [], [] => true
-  | (s, e) :: et, (a, b) :: ot => ok_token k s a && ok_token k e b && ok_pairs k et ot
+  | c :: ct, o :: ot => tok_ok k c o && ok_each k ct ot
   | _, _ => false
   end.
 
-Definition ok_cues (k : wkind) (caps : list caption) (groups : list nat) (obs : list (str * str)) : bool :=
-  ok_pairs k (expected_spans k caps groups) obs.
+(* "MAY merge consecutive captions with identical start and end into one cue" (SRT, legacy, single-position):
+   every cue conveys the caption it stands for and may absorb following captions with the same span - any
+   merging from none to the maximal runs is accepted.  pending = the caption the last cue stands for *)
+Fixpoint ok_may_merge (k : wkind) (pending : option caption) (caps : list caption) (obs : list (str * str)) : bool :=
+  match caps with
+  | [] => match obs with [] => true | _ => false end
+  | c :: ct =>
+      (match pending with Some p => span_eqb p c && ok_may_merge k (Some p) ct obs | None => false end)
+      || (match obs with o :: ot => tok_ok k c o && ok_may_merge k (Some c) ct ot | [] => false end)
+  end.
+
+(* "MAY split a caption ... into several cues with the same times" (WebVTT): one or more cues per caption,
+   each with the caption's times *)
+Fixpoint ok_may_split (k : wkind) (obs : list (str * str)) (caps : list caption) {struct obs} : bool :=
+  match obs with
+  | [] => match caps with [] => true | _ => false end
+  | o :: ot =>
+      match caps with
+      | [] => false
+      | c :: ct => tok_ok k c o && (ok_may_split k ot ct || ok_may_split k ot (c :: ct))
+      end
+  end.
+
+Definition ok_cues (k : wkind) (caps : list caption) (obs : list (str * str)) : bool :=
+  match k with
+  | WSrt | WMerged => ok_may_merge k None caps obs
+  | WVtt => ok_may_split k obs caps
+  | WDfxp | WMdvd => ok_each k caps obs
+  end.
 
 (* ---- SAMI sync rule ------------------------------------------------------------------ *)
 (* observed: the syncs carrying a paragraph of the language, in document order:
@@ -138,30 +161,19 @@ Definition ok_sami (caps : list (Q * Q)) (obs : list (str * bool)) : bool :=
   | None => false
   end.
 
-(* ---- WebVTT layout groups, from the statement: "WebVTT may split a caption whose nodes carry different
-   layouts into several cues with the same times": a new cue starts at a text node whose layout differs
-   from the (present) layout of the text node before it ---------------------------------------------- *)
-From PV Require Import model.TimeWrite.
-
-Definition text_layouts (nodes : list vnode) : list (option Z) :=
-  flat_map (fun n => match n with VText l => [l] | _ => [] end) nodes.
-
-Fixpoint layout_changes (prev : option Z) (ls : list (option Z)) : nat :=
-  match ls with
-  | [] => O
-  | l :: t => (match prev with
-               | Some c => if opt_z_eqb l (Some c) then O else 1%nat
-               | None => O
-               end + layout_changes l t)%nat
+(* the sync rule as a function: what the statement prescribes for one language, as (ms, is blank) pairs *)
+Fixpoint sami_rule (caps : list (Q * Q)) : list (Z * bool) :=
+  match caps with
+  | [] => []
+  | (s, e) :: t =>
+      (floor_ms s, false)
+      :: (match t with
+          | (s', _) :: _ => if floor_ms s' =? floor_ms e then [] else [(floor_ms e, true)]
+          | [] => []
+          end) ++ sami_rule t
   end.
 
-Definition shows_something (nodes : list vnode) : bool :=
-  existsb (fun n => match n with VText _ => true | VStyle e => e | VBreak => true end) nodes.
-
-Definition spec_groups (nodes : list vnode) : nat :=
-  if shows_something nodes then S (layout_changes None (text_layouts nodes)) else O.
-
-(* times inside the writers' domain *)
-Definition time_ok (t : Q) : bool := Qle_bool 0 t && (0 <=? TimeWrite.rhe t) && (TimeWrite.rhe t <? 86400000000).
+(* times inside the writers' domain: 0 <= t and t rounds to a microsecond below 24 h *)
+Definition time_ok (t : Q) : bool := Qle_bool 0 t && negb (Qle_bool (172799999999 # 2) t).
 Definition caps_time_ok (caps : list caption) : bool :=
   forallb (fun c => time_ok (c_start c) && time_ok (c_end c)) caps.
